@@ -10,7 +10,9 @@ independent decoders in the correspondence run, for every format and option vari
 import GrcovModel.Writers
 import GrcovModel.Props.C05
 import GrcovModel.Props.C03CobAde
+import GrcovModel.Props.C03CobBytes
 import GrcovModel.Props.C03Docs
+import GrcovModel.Props.C03Main
 namespace Grcov.Props.C03
 open Grcov AList Grcov.Writers
 
